@@ -31,9 +31,24 @@ def _bits(t, v, ctx):
 
 def _is_empty(t, v, ctx):
     try:
-        return _bits(t, v, ctx).nbits() == 0
+        if _bits(t, v, ctx).nbits() == 0:
+            return True
     except Exception:
         return False
+    # unasserted rule "EXTENSIBILITY IMPLIED makes ENUMERATED extensible" (ref_per.LEDGER): the model also admits
+    # the encoding without the implied extension bit, and that one may be empty
+    if getattr(ctx, 'ei', False):
+        r, n = t, 0
+        while isinstance(r, (Ref, Tag)) and n < 30:
+            r = ctx.env.get(r.name) if isinstance(r, Ref) else r.inner
+            n += 1
+        if isinstance(r, Leaf) and r.kind == 'ENUMERATED' and r.enum_adds is None:
+            try:
+                plain = ref_per.Ctx(ctx.env, ctx.tags, False, ctx.aligned, ctx.numeric, ref_per.Policy())
+                return _bits(t, v, plain).nbits() == 0
+            except Exception:
+                return False
+    return False
 
 
 def _open_type_octets(t, v, ctx):
